@@ -189,7 +189,8 @@ func Range(start, end int64) Observable[int64] {
 	return NewUnsafeObservableWithContext(func(ctx context.Context, destination Observer[int64]) Teardown {
 		cursor := start
 
-		for cursor*sign < end*sign {
+		// Compare without multiplying by the sign: -math.MinInt64 overflows.
+		for (sign > 0 && cursor < end) || (sign < 0 && cursor > end) {
 			destination.NextWithContext(ctx, cursor)
 			cursor += sign
 		}
